@@ -20,6 +20,9 @@ Site classes
      compares the used name with `canonicalize ("/" ++ p)` = p for every node of a reference tree
   S  is_filename_sane on names read from an image: forged images (tools/sqfs_forge.py) with entry names from the
      reject set {".", "..", "a/b", "/", "x/", "/x"} and the accept set {"...", "..a", "a..", ".a", "a"}
+     The same images are given to sqfs2tar (probe sane_s2t; archive parsed from its raw records): on the pinned tree
+     it has no such call and writes the forged names into member names - known finding, fixes/C18-sqfs2tar-entry-names.patch
+Next to COVER (site -> probes), SHAPES holds the expected AST use shape of every call's result.
 """
 import collections, io, itertools, os, subprocess, tarfile, threading
 from concurrent.futures import ThreadPoolExecutor
@@ -97,6 +100,13 @@ def decorate(rng, comps):
     return bytes(out) or b"."
 
 
+def noncanonical(p, kind="f"):
+    """a fixed non-canonical spelling of the canonical path p: './' in front, the last separator doubled, './' before
+    the last component, a trailing slash on directories"""
+    c = comps_of(p)
+    return b"./" + (b"/".join(c[:-1]) + b"//./" if len(c) > 1 else b"") + c[-1] + (b"/" if kind == "d" else b"")
+
+
 def accept_set(rng, bases, n):
     """decorated spellings of the given canonical paths: every base plain once, then random decorations"""
     out = [b for b in bases if b]
@@ -147,6 +157,61 @@ def near_miss_set(rng, bases, n):
         if s not in out:
             out.append(s)
     return out
+
+
+# ------------------------------------------------------------------------------------------------ raw tar read-back
+def raw_tar_members(raw):
+    """[(member name bytes exactly as stored, type flag byte)] parsed from the 512-byte records themselves: no
+    normalisation of any kind (tarfile strips trailing slashes and decodes names).  ustar prefix field, GNU 'L'
+    long-name records and the pax 'path' keyword are honoured.  Raises ValueError on a damaged archive."""
+    out, off, longname, paxpath = [], 0, None, None
+    while off + 512 <= len(raw):
+        h = raw[off:off + 512]
+        if h == b"\0" * 512:
+            break
+        stored = int(h[148:156].strip(b"\0 ") or b"0", 8)
+        if sum(h[:148]) + 8 * 32 + sum(h[156:]) != stored:
+            raise ValueError("bad header checksum at offset %d" % off)
+        name = h[0:100].split(b"\0", 1)[0]
+        prefix = h[345:500].split(b"\0", 1)[0] if h[257:263] == b"ustar\0" else b""
+        typ = h[156:157]
+        size = int.from_bytes(h[125:136], "big") if h[124] & 0x80 else int(h[124:136].strip(b"\0 ") or b"0", 8)
+        data = raw[off + 512:off + 512 + size]
+        if len(data) != size:
+            raise ValueError("truncated member at offset %d" % off)
+        off += 512 + ((size + 511) // 512) * 512
+        if typ == b"L":
+            longname = data.split(b"\0", 1)[0]
+            continue
+        if typ in (b"x", b"X"):
+            pos = 0
+            while pos < len(data):
+                sp = data.index(b" ", pos)
+                ln = int(data[pos:sp])
+                rec = data[sp + 1:pos + ln - 1]
+                pos += ln
+                k, _, v = rec.partition(b"=")
+                if k == b"path":
+                    paxpath = v
+            continue
+        if typ in (b"g", b"K"):
+            continue
+        full = paxpath if paxpath is not None else longname if longname is not None else (prefix + b"/" + name if prefix else name)
+        out.append((full, typ))
+        longname = paxpath = None
+    else:
+        raise ValueError("no end-of-archive record")
+    return out
+
+
+def hostile_member(name, typ):
+    """the property's clauses on an emitted member name: a clean relative path, i.e. no '..', '.' or empty component
+    (= the name differs from its canonical form or canonicalisation refuses it; specCanon in plain Python, the same
+    function ask_model cross-checks against the Lean model).  A directory member carries one trailing slash."""
+    if typ == b"5" and name.endswith(b"/"):
+        name = name[:-1]
+    cs = name.split(b"/")
+    return name == b"" or any(c in (b"", b".", b"..") for c in cs)
 
 
 # ------------------------------------------------------------------------------------------------ evaluation record
@@ -303,6 +368,10 @@ class Funnel:
         self.ref_txt, self.ref_img, self.src_dir = self.T0.txt, self.T0.img, self.T0.src_dir
         self.ref_tar = self.d / "ref.tar"
         self.mktar(self.ref_tar, [(p, tarfile.DIRTYPE if k == "d" else tarfile.REGTYPE, None, data or b"") for p, k, data in REF])
+        # the same members under non-canonical names ('./c18x//y/'): what tar2sqfs stores, and what --exclude is matched
+        # against, must be the canonical name whatever the archive spells
+        self.ref_tar_nc = self.d / "ref_nc.tar"
+        self.mktar(self.ref_tar_nc, [(noncanonical(p, k), tarfile.DIRTYPE if k == "d" else tarfile.REGTYPE, None, data or b"") for p, k, data in REF])
         self.trees = [self.T0]
         for i in range(3 if self.ctx.quick() else 12):
             T = random_tree(self.rng, "rnd%d" % i, self.rng.randint(4, 14))
@@ -479,6 +548,23 @@ class Funnel:
         exp = sorted(p[len(m) + 1:] for p in REF_PATHS if p.startswith(m + b"/"))
         self.add("s2t_subdir", kind, s, exp, got, got == exp, err)
 
+    S2T_SUBDIR_FIRST = b".//c18q/./"              # first value of the two-value runs: a decorated spelling of c18q
+
+    def probe_s2t_subdir2(self, kind, s):
+        """the option is repeatable: `-d .//c18q/./ -d <s>`.  Every value must be canonicalised: refused when the model
+        refuses the second; otherwise (two sub-directories: nothing is stripped) the archive holds each selected
+        directory, what leads to it and what is below it"""
+        rc, out, err = self.run([self.s2t, "-d", self.S2T_SUBDIR_FIRST, "-d", s, self.ref_img])
+        m = self.model[s]
+        if self.crashed(rc):
+            return self.add("s2t_subdir2", kind, s, m, "crash rc=%d" % rc, False, err)
+        if m is None:
+            return self.add("s2t_subdir2", kind, s, "refused", "refused" if self.refused(rc) else "accepted rc=%d" % rc, self.refused(rc), err)
+        got = self.tar_names(out) if rc == 0 else "rc=%d" % rc
+        sel = [self.model[self.S2T_SUBDIR_FIRST], m]
+        exp = sorted(p for p in REF_PATHS if any(p == d or d.startswith(p + b"/") or p.startswith(d + b"/") for d in sel))
+        self.add("s2t_subdir2", kind, s, exp, got, got == exp, err)
+
     def cases_t2s_root(self):
         return ([("reject", s) for s in reject_set(self.rng, [b"c18x/y", b"c18x"], self.n)] + [("reject-empty", b"/"), ("reject-empty", b"."), ("reject-empty", b"./")] +
                 [("accept", s) for s in accept_set(self.rng, [b"c18x/y", b"c18x", b"c18q", b"c18x/..."], self.n)] +
@@ -519,6 +605,26 @@ class Funnel:
         exp = sorted(p for p in REF_PATHS if not (p == m and p in REF_FILES))
         self.add("t2s_exclude", kind, s, exp, got, got == exp, err)
 
+    T2S_EXCLUDE_FIRST = b".//c18q/./v"            # first value of the two-value runs: a decorated spelling of c18q/v
+
+    def probe_t2s_exclude2(self, kind, s):
+        """the option is repeatable and the archive need not spell names canonically: `-E .//c18q/./v -E <s>` on an
+        archive whose members are named './c18x//./w' etc.  Every value must be canonicalised (refused when the model
+        refuses the second one; both members left out otherwise) and the match must be against the canonical member
+        name (lib/tar/src/iterator.c: the exclude loop comes after canonicalize_name)."""
+        t = self.tmp(".sqfs")
+        rc, out, err = self.run([self.t2s, "-E", self.T2S_EXCLUDE_FIRST, "-E", s, "-f", "-q", t], stdin=self.ref_tar_nc)
+        m = self.model[s]
+        if self.crashed(rc):
+            return self.add("t2s_exclude2", kind, s, m, "crash rc=%d" % rc, False, err)
+        if m is None:
+            return self.add("t2s_exclude2", kind, s, "refused", "refused" if self.refused(rc) else "accepted rc=%d" % rc, self.refused(rc), err)
+        ls = self.listing(t) if rc == 0 else "rc=%d" % rc
+        got = sorted(p for p, _, _, _ in ls) if isinstance(ls, list) else ls
+        gone = {self.model[self.T2S_EXCLUDE_FIRST]} | ({m} if m in REF_FILES else set())
+        exp = sorted(p for p in REF_PATHS if p not in gone)
+        self.add("t2s_exclude2", kind, s, exp, got, got == exp, err)
+
     def cases_t2s_retarget(self):
         ins = (reject_set(self.rng, [b"c18x/y/z", b"c18q/v"], self.n) + accept_set(self.rng, [b"c18x/y/z", b"c18x/w", b"c18q/v", b"c18x"], self.n) +
                near_miss_set(self.rng, [b"c18x/y"], 3))
@@ -540,31 +646,57 @@ class Funnel:
             got = tg.get(b"s%03d" % i, ls if not isinstance(ls, list) else "missing")
             self.add("t2s_retarget", "reject" if m is None else "accept", s, exp, got, got == exp, err)
 
+    def chain_image(self, s):
+        """forged image that really contains the chain of entries a refused path spells ('x', '..', 'y' ...), with the
+        file leak-marker (content 'leaked', xattr user.c18leak) at its end"""
+        chain = [c for c in s.split(b"/") if c not in (b"", b".")]
+        node = sqfs_forge.Node(b"leak-marker", "f", payload=b"leaked\n", xattrs=[(b"user.c18leak", b"leaked-x")])
+        for c in reversed(chain):
+            node = sqfs_forge.Node(c, "d", children=[node])
+        img = self.tmp(".sqfs")
+        img.write_bytes(sqfs_forge.forge(sqfs_forge.Node(b"", "d", children=[node])))
+        return img
+
     def cases_rd_path(self):
         rej = reject_set(self.rng, [b"c18x/y/z", b"c18q"], self.n)
         acc_f = accept_set(self.rng, REF_FILES, self.n // 2 + 2)
         acc_d = accept_set(self.rng, REF_DIRS, self.n // 2 + 2) + [b"/", b".", b"./", b"//."]
         return ([("reject", s) for s in rej] + [("cat", s) for s in acc_f] + [("ls", s) for s in acc_d] +
-                [("reject-op", (op, s)) for op, s in zip(["-c", "-s", "-x", "-u"], rej[:4])])
+                [("reject-op", (op, s + (b"" if op == "-u" else b"/leak-marker"))) for op, s in zip(["-c", "-s", "-x", "-u"] * 2, self.plain_rejects(rej))])
+
+    @staticmethod
+    def plain_rejects(rej):
+        """the refused paths that are spelled without decoration ('x/../y'): looked up component by component they
+        resolve in the forged chain image, so that only the refusal in get_path keeps the marker from being reached.
+        Two rounds over the four operations, '..' in a different position each time."""
+        plain = [s for s in rej if s and all(c not in (b"", b".") for c in s.split(b"/"))]
+        if len(plain) < 4:
+            raise vlib.CheckFailure("C18 funnel: only %d undecorated refused paths for the rdsquashfs reject-op probes" % len(plain))
+        return (plain + plain[::-1])[:8]
 
     def probe_rd_path(self, kind, s):
         """bin/rdsquashfs/src/options.c get_path (-l -c -s -x -u).  A refused path is looked up in a *forged* image
         that really contains that chain of entries ('x', '..', 'y' ...), so that a path which is not refused would
         resolve; stored name = the node that is listed (-l: its children) or printed (-c: its content)."""
         if kind == "reject-op":
+            # -c/-s/-x: <chain>/leak-marker is a file with content 'leaked' and the xattr user.c18leak; -u: the chain
+            # itself.  All of them against the forged image that has these entries (as -l below): a path that is not
+            # refused by get_path resolves, and prints the content / the name / the xattr key.  For -u nothing else is
+            # observable - restore_fstree.c refuses a tree with a '..' node on its own - so the diagnostic must be
+            # about the path argument (a refusal for any other reason names something else)
             op, p = s
+            img = self.chain_image(p[:-len(b"/leak-marker")] if op != "-u" else p)
             jail = self.tmp(".jail")
-            jail.mkdir()
-            rc, out, err = self.run([self.rd, op, p, self.ref_img], cwd=jail)
-            return self.add("rd_path", "reject", p, "refused", "refused" if self.refused(rc) else "rc=%d" % rc, self.refused(rc) and self.model[p] is None, err)
+            (jail / "R").mkdir(parents=True)
+            rc, out, err = self.run([self.rd, op, p, img], cwd=jail / "R")
+            marker = {"-c": b"leaked", "-s": b"leak-marker", "-x": b"c18leak", "-u": b"leak-marker"}[op]
+            tree = sorted(os.listdir(str(jail / "R"))) + sorted(x for x in os.listdir(str(jail)) if x != "R")
+            ok = self.refused(rc) and self.model[p] is None and marker not in out and not tree and (op != "-u" or p in err)
+            got = "refused" if ok else "rc=%d out=%r created=%r err=%r" % (rc, out[:80], tree, err[-120:])
+            return self.add("rd_path", "reject", p, "refused", got, ok, err)
         m = self.model[s]
         if kind == "reject":
-            chain = [c for c in s.split(b"/") if c not in (b"", b".")]
-            node = sqfs_forge.Node(b"leak-marker", "f", payload=b"leaked\n")
-            for c in reversed(chain):
-                node = sqfs_forge.Node(c, "d", children=[node])
-            img = self.tmp(".sqfs")
-            img.write_bytes(sqfs_forge.forge(sqfs_forge.Node(b"", "d", children=[node])))
+            img = self.chain_image(s)
             rc, out, err = self.run([self.rd, "-l", s, img])
             ok = m is None and self.refused(rc) and b"leak-marker" not in out
             return self.add("rd_path", kind, s, "refused", "refused" if self.refused(rc) else "rc=%d out=%r" % (rc, out[:80]), ok, err)
@@ -746,6 +878,47 @@ class Funnel:
             self.add("sane_describe", "reject", name, "refused", "refused" if self.refused(rc) and not names else "rc=%d names=%r" % (rc, names),
                      self.refused(rc) and not names, err)
 
+    def probe_sane_s2t(self, kind, name):
+        """sqfs2tar on the same forged image as probe_sane (d1/<name> file, d2/<name>/in directory): three runs - plain,
+        `-r c18r/t` (prefix prepended), `-d c18d2` (prefix stripped).  The archive is parsed from its raw records.
+        Oracle 1 (hostile): no emitted member name has a '..', '.' or empty component.  Oracle 2: the tool either
+        refuses the image, or writes exactly the entries whose names the model's isFilenameSane accepts (whether it says
+        so on stderr is recorded, not judged: lib/sqfs/src/io/dir_rec.c drops a literal '.'/'..' silently)."""
+        N = sqfs_forge.Node
+        sane = self.sane[name]
+        root = N(b"", "d", children=[N(b"c18d1", "d", children=[N(name, "f", payload=b"payload\n"), N(b"sib", "f", payload=b"s\n")]),
+                                     N(b"c18d2", "d", children=[N(name, "d", children=[N(b"in", "f", payload=b"i\n")]), N(b"sib", "f", payload=b"s\n")])])
+        img = self.tmp(".sqfs")
+        img.write_bytes(sqfs_forge.forge(root))
+        d1 = [(b"c18d1/", b"5"), (b"c18d1/sib", b"0")] + ([(b"c18d1/" + name, b"0")] if sane else [])
+        d2 = [(b"c18d2/", b"5"), (b"c18d2/sib", b"0")] + ([(b"c18d2/" + name + b"/", b"5"), (b"c18d2/" + name + b"/in", b"0")] if sane else [])
+        runs = [("plain", [], sorted(d1 + d2)),
+                ("root", ["-r", "c18r/t"], sorted([(b"c18r/t/", b"5")] + [(b"c18r/t/" + n, t) for n, t in d1 + d2])),
+                ("subdir", ["-d", "c18d2"], sorted((n[len(b"c18d2/"):], t) for n, t in d2 if n != b"c18d2/"))]
+        bad, seen = [], {}
+        for tag, opts, exp in runs:
+            rc, out, err = self.run([self.s2t] + opts + [img])
+            if self.crashed(rc):
+                bad.append("%s: crash rc=%d" % (tag, rc))
+                seen[tag] = "crash rc=%d %s" % (rc, err[-200:].decode(errors="replace"))
+                continue
+            try:
+                mem = raw_tar_members(out)
+            except ValueError as e:
+                if rc == 0:
+                    bad.append("%s: unreadable archive (%s)" % (tag, e))
+                mem = []
+            seen[tag] = (rc, sorted(mem), err[-120:])
+            host = sorted(n for n, t in mem if hostile_member(n, t))
+            if host:
+                bad.append("%s: hostile member name(s) %r" % (tag, host))
+            if self.refused(rc) and not sane:
+                continue                                    # refusing a forged image is a correct answer
+            if rc != 0 or sorted(mem) != exp:
+                bad.append("%s: rc=%d members %r, expected %r" % (tag, rc, sorted(mem), exp))
+        self.add("sane_s2t", "accept" if sane else "reject", name, "no hostile member name; exactly the sane entries, or refused",
+                 "ok" if not bad else "; ".join(bad), not bad, repr(seen))
+
     def probe_fixture(self):
         """corpus: the repository's own hostile image bin/rdsquashfs/test/pathtraversal.sqfs, when the working tree
         still has it (its absence is recorded, not hidden: the forged images above carry the S-site probes)"""
@@ -775,9 +948,10 @@ class Funnel:
             return [e for e in self.evals if e.probe == probe]
         if probe.startswith("sane_"):
             self.ask_model([b"x"], [inp])
-            self.probe_sane("name", inp)
+            (self.probe_sane_s2t if probe == "sane_s2t" else self.probe_sane)("name", inp)
             return [e for e in self.evals if e.probe == probe]
-        self.ask_model([inp] if not probe.startswith("b_") and not probe.startswith("fixture") else [b"x"], [])
+        self.ask_model(([inp] if not probe.startswith("b_") and not probe.startswith("fixture") else [b"x"]) +
+                       [self.T2S_EXCLUDE_FIRST, self.S2T_SUBDIR_FIRST], [])
         self.make_reference()
         bmap = {"b_packing": self.probe_b_gensquashfs_dir, "b_scan_xattr": self.probe_b_gensquashfs_dir, "b_glob": self.probe_b_glob,
                 "b_sortmatch": self.probe_b_sortmatch, "b_create": self.probe_b_unpack, "b_fill": self.probe_b_unpack,
@@ -794,8 +968,12 @@ class Funnel:
             self.probe_t2s_retarget("batch", (inp,))
         elif probe == "rd_path":
             m = self.model[inp]
+            if m is None:
+                # the record does not say which operation refused: re-run every operation that takes this kind of path
+                for op in (["-c", "-s", "-x"] if inp.endswith(b"/leak-marker") else ["-u"]):
+                    self.probe_rd_path("reject-op", (op, inp))
             self.probe_rd_path("reject" if m is None else "cat" if m in REF_FILES else "ls", inp)
-        elif probe in self.A_PROBES:
+        elif probe in self.A_PROBES or probe[:-1] in self.PAIRED:
             getattr(self, "probe_" + probe)(kind, inp)
         else:
             raise vlib.CheckFailure("C18 funnel: unknown probe %r in replay file" % probe)
@@ -804,6 +982,8 @@ class Funnel:
     # ================================================================ driver
     A_PROBES = ["packfile", "sortfile", "xattrfile", "tarmember", "tarhardlink", "s2t_root", "s2t_subdir", "t2s_root", "t2s_exclude",
                 "t2s_retarget", "rd_path"]
+
+    PAIRED = ["t2s_exclude", "s2t_subdir"]        # repeatable options: a second run per case with two values
 
     def run_all(self):
         self.build()
@@ -821,7 +1001,11 @@ class Funnel:
                     paths.append(s[1])
                 else:
                     paths.append(s)
+        paths += [self.T2S_EXCLUDE_FIRST, self.S2T_SUBDIR_FIRST] + [noncanonical(p, k) for p, k, _ in REF]
         self.ask_model(paths, [n for _, n in cases["sane"]])
+        if self.model[self.T2S_EXCLUDE_FIRST] != b"c18q/v" or self.model[self.S2T_SUBDIR_FIRST] != b"c18q" or \
+                any(self.model[noncanonical(p, k)] != p or noncanonical(p, k) == p for p, k, _ in REF):
+            raise vlib.CheckFailure("C18 funnel: the fixed non-canonical spellings do not canonicalise to the reference paths")
         # the generators must deliver what they promise: a probe whose reject or accept set is empty proves nothing
         for name in self.A_PROBES:
             kinds = [k for k, _ in cases[name]]
@@ -841,6 +1025,11 @@ class Funnel:
         for name in self.A_PROBES + ["sane"]:
             for kind, s in cases[name]:
                 jobs.append((getattr(self, "probe_" + name), (kind, s)))
+        for kind, s in cases["sane"]:
+            jobs.append((self.probe_sane_s2t, (kind, s)))
+        for name in self.PAIRED:
+            for kind, s in cases[name]:
+                jobs.append((getattr(self, "probe_" + name + "2"), (kind, s)))
         for T in self.trees:
             for b in ("probe_b_gensquashfs_dir", "probe_b_glob", "probe_b_sortmatch", "probe_b_unpack", "probe_b_describe", "probe_b_sqfsdiff"):
                 jobs.append((getattr(self, b), (T,)))
@@ -855,14 +1044,14 @@ class Funnel:
 # call site (AST key) -> probes that drive it.  `need` = evaluation kinds that must each have occurred at least once.
 COVER = {
     "lib/fstree/src/fstree.c:mknode:canonicalize_name#0": (["lib_hlink", "tarhardlink"], "A"),
-    "lib/tar/src/iterator.c:it_next:canonicalize_name#0": (["lib_tar", "tarmember"], "A"),
+    "lib/tar/src/iterator.c:it_next:canonicalize_name#0": (["lib_tar", "tarmember", "t2s_exclude2"], "A"),
     "bin/gensquashfs/src/fstree_from_file.c:handle_line:canonicalize_name#0": (["packfile"], "A"),
     "bin/gensquashfs/src/sort_by_file.c:decode_filename:canonicalize_name#0": (["sortfile"], "A"),
     "bin/gensquashfs/src/filemap_xattr.c:parse_file_name:canonicalize_name#0": (["xattrfile"], "A"),
     "bin/sqfs2tar/src/options.c:process_args:canonicalize_name#0": (["s2t_root"], "A"),
-    "bin/sqfs2tar/src/options.c:process_args:canonicalize_name#1": (["s2t_subdir"], "A"),
+    "bin/sqfs2tar/src/options.c:process_args:canonicalize_name#1": (["s2t_subdir", "s2t_subdir2"], "A"),
     "bin/tar2sqfs/src/options.c:process_args:canonicalize_name#0": (["t2s_root"], "A"),
-    "bin/tar2sqfs/src/options.c:process_args:canonicalize_name#1": (["t2s_exclude"], "A"),
+    "bin/tar2sqfs/src/options.c:process_args:canonicalize_name#1": (["t2s_exclude", "t2s_exclude2"], "A"),
     "bin/tar2sqfs/src/process_tarball.c:process_tarball:canonicalize_name#0": (["t2s_retarget"], "A"),
     "bin/rdsquashfs/src/options.c:get_path:canonicalize_name#0": (["rd_path"], "A"),
     "bin/gensquashfs/src/sort_by_file.c:fstree_sort_files:canonicalize_name#0": (["b_sortmatch", "sortfile"], "B"),
@@ -878,5 +1067,38 @@ COVER = {
     "bin/rdsquashfs/src/restore_fstree.c:create_node_dfs:is_filename_sane#0": (["sane_unpack"], "S"),
     "bin/rdsquashfs/src/restore_fstree.c:set_attribs:is_filename_sane#0": (["sane_unpack"], "S"),
     "bin/rdsquashfs/src/describe.c:describe_tree:is_filename_sane#0": (["sane_describe"], "S"),
+    "bin/sqfs2tar/src/iterator.c:sane_next:is_filename_sane#0": (["sane_s2t"], "S"),
+}
+# call site (AST key) -> how the result is used there (checks/c18_ast.py `_shape`): `IfStmt(cond)` = the result itself is
+# the condition (refuse when non-zero), `UnaryOperator(!)` = negated (is_filename_sane: refuse when false), a comparison
+# with its operator and literal, `BinaryOperator(=)` = assigned (class B: `ret = ...; assert(ret == 0)` - what happens to
+# the variable afterwards is not part of the shape).  A different shape (`!= 0` turned into `> 0` or `< 0`, a dropped
+# negation, a result that is no longer tested) is reported as `funnel-shape:<key>` even where no probe input shows it.
+SHAPES = {
+    "lib/fstree/src/fstree.c:mknode:canonicalize_name#0": "IfStmt(cond)",
+    "lib/tar/src/iterator.c:it_next:canonicalize_name#0": "IfStmt(cond)>BinaryOperator(!= 0)",
+    "bin/gensquashfs/src/apply_xattr.c:get_full_path:canonicalize_name#0": "BinaryOperator(=)",
+    "bin/gensquashfs/src/filemap_xattr.c:parse_file_name:canonicalize_name#0": "IfStmt(cond)",
+    "bin/gensquashfs/src/fstree_from_file.c:handle_line:canonicalize_name#0": "IfStmt(cond)",
+    "bin/gensquashfs/src/glob.c:glob_files:canonicalize_name#0": "IfStmt(cond)>BinaryOperator(!= 0)",
+    "bin/gensquashfs/src/mkfs.c:pack_files:canonicalize_name#0": "BinaryOperator(=)",
+    "bin/gensquashfs/src/sort_by_file.c:decode_filename:canonicalize_name#0": "IfStmt(cond)",
+    "bin/gensquashfs/src/sort_by_file.c:fstree_sort_files:canonicalize_name#0": "IfStmt(cond)",
+    "bin/rdsquashfs/src/describe.c:print_name:canonicalize_name#0": "IfStmt(cond)>BinaryOperator(!= 0)",
+    "bin/rdsquashfs/src/describe.c:describe_tree:is_filename_sane#0": "IfStmt(cond)>UnaryOperator(!)",
+    "bin/rdsquashfs/src/fill_files.c:add_file:canonicalize_name#0": "IfStmt(cond)",
+    "bin/rdsquashfs/src/fill_files.c:gen_file_list_dfs:is_filename_sane#0": "IfStmt(cond)>UnaryOperator(!)",
+    "bin/rdsquashfs/src/options.c:get_path:canonicalize_name#0": "IfStmt(cond)",
+    "bin/rdsquashfs/src/restore_fstree.c:create_node_dfs:is_filename_sane#0": "IfStmt(cond)>UnaryOperator(!)",
+    "bin/rdsquashfs/src/restore_fstree.c:create_node_dfs:canonicalize_name#0": "BinaryOperator(=)",
+    "bin/rdsquashfs/src/restore_fstree.c:set_attribs:is_filename_sane#0": "IfStmt(cond)>UnaryOperator(!)",
+    "bin/rdsquashfs/src/restore_fstree.c:set_attribs:canonicalize_name#0": "BinaryOperator(=)",
+    "bin/sqfs2tar/src/iterator.c:sane_next:is_filename_sane#0": "IfStmt(cond)",
+    "bin/sqfs2tar/src/options.c:process_args:canonicalize_name#0": "IfStmt(cond)>BinaryOperator(||)>BinaryOperator(!= 0)",
+    "bin/sqfs2tar/src/options.c:process_args:canonicalize_name#1": "IfStmt(cond)",
+    "bin/sqfsdiff/src/util.c:node_path:canonicalize_name#0": "IfStmt(cond)",
+    "bin/tar2sqfs/src/options.c:process_args:canonicalize_name#0": "IfStmt(cond)>BinaryOperator(||)>BinaryOperator(!= 0)",
+    "bin/tar2sqfs/src/options.c:process_args:canonicalize_name#1": "IfStmt(cond)",
+    "bin/tar2sqfs/src/process_tarball.c:process_tarball:canonicalize_name#0": "IfStmt(cond)>BinaryOperator(&&)>BinaryOperator(&&)>BinaryOperator(== 0)",
 }
 DEFINING_FILES = ("lib/util/src/canonicalize_name.c", "lib/util/src/filename_sane.c")
